@@ -511,7 +511,10 @@ func (r *Renderer) renderAutoLink(
 	if n.AutoLinkType == ast.AutoLinkEmail && !bytes.HasPrefix(bytes.ToLower(url), []byte("mailto:")) {
 		_, _ = w.WriteString("mailto:")
 	}
-	_, _ = w.Write(util.EscapeHTML(util.URLEscape(url, false)))
+	href := util.URLEscape(url, false)
+	if r.Unsafe || n.AutoLinkType == ast.AutoLinkEmail || !IsDangerousURL(href) {
+		_, _ = w.Write(util.EscapeHTML(href))
+	}
 	if n.Attributes() != nil {
 		_ = w.WriteByte('"')
 		RenderAttributes(w, n, LinkAttributeFilter)
@@ -581,8 +584,9 @@ func (r *Renderer) renderLink(w util.BufWriter, source []byte, node ast.Node, en
 	n := node.(*ast.Link)
 	if entering {
 		_, _ = w.WriteString("<a href=\"")
-		if r.Unsafe || !IsDangerousURL(n.Destination) {
-			_, _ = w.Write(util.EscapeHTML(util.URLEscape(n.Destination, true)))
+		href := util.URLEscape(n.Destination, true)
+		if r.Unsafe || !IsDangerousURL(href) {
+			_, _ = w.Write(util.EscapeHTML(href))
 		}
 		_ = w.WriteByte('"')
 		if n.Title != nil {
@@ -609,8 +613,9 @@ func (r *Renderer) renderImage(w util.BufWriter, source []byte, node ast.Node, e
 	}
 	n := node.(*ast.Image)
 	_, _ = w.WriteString("<img src=\"")
-	if r.Unsafe || !IsDangerousURL(n.Destination) {
-		_, _ = w.Write(util.EscapeHTML(util.URLEscape(n.Destination, true)))
+	src := util.URLEscape(n.Destination, true)
+	if r.Unsafe || !IsDangerousURL(src) {
+		_, _ = w.Write(util.EscapeHTML(src))
 	}
 	_, _ = w.WriteString(`" alt="`)
 	r.renderTexts(w, source, n)
